@@ -72,6 +72,8 @@ package server
 //@ ensures q.closed || q.headOffset.v == ite(headOffset <= old(q.headOffset.v), old(q.headOffset.v), headOffset)
 //@ ensures q.requiredAcks > 0 ==> q.commitOffset.v == old(q.commitOffset.v)
 //@ ensures q.commitOffset.v >= old(q.commitOffset.v) && q.commitOffset.v <= q.headOffset.v
+//@ ensures !old(q.closed) && headOffset > old(q.headOffset.v) && q.requiredAcks > 0 ==> inmap(q.tracker, headOffset) && q.tracker[headOffset].bits == 0
+//@ ensures forall o int64 :: old(inmap(q.tracker, o)) && o != headOffset ==> inmap(q.tracker, o) && q.tracker[o] == old(q.tracker[o])
 
 //@ func NewQuorumAckTracker
 //@ property C08 C01
